@@ -36,7 +36,8 @@ Inductive req :=
 | RMarkup (c : ctx) (s : scope)           (* convert_markup_impl *)
 | RMath (c : ctx)                         (* convert_math *)
 | RContentBlock (c : ctx)                 (* convert_content_block *)
-| RParenthesized (c : ctx)                (* convert_parenthesized *)
+| RExprEmb (c : ctx)                      (* convert_embedded_expr: a child of Markup or Math *)
+| RParenthesized (c : ctx) (emb : bool)   (* convert_parenthesized *)
 | RNamed (c : ctx)
 | RKeyed (c : ctx)
 | RSpread (c : ctx)
@@ -434,7 +435,7 @@ Section Conv.
                     x <- (if kind_eqb (bk node) KSpace then ret space
                           else if kind_eqb (bk node) KText then ret (convert_verbatim (bt node))
                           else if is_expr (bt node) then
-                            call node (RExpr (if ml_mixed ln then suppress_breaks c else c))
+                            call node (RExprEmb (if ml_mixed ln then suppress_breaks c else c))
                           else if is_comment_b node then convert_comment node
                           else ret (convert_trivia (bt node))) ;;
                     ret (append d x)) (ml_nodes ln) d ;;
@@ -521,7 +522,7 @@ Section Conv.
       r <- foldM (fun (st : doc * bool) (node : bundle) =>
             let '(d, at_hash) := st in
             if is_expr (bt node) then
-              x <- call node (RExpr (with_mode_if c LCode at_hash)) ;; ret (append d x, false)
+              x <- call node (RExprEmb (with_mode_if c LCode at_hash)) ;; ret (append d x, false)
             else if kind_eqb (bk node) KSpace then ret (append d (convert_space_text (tx node)), false)
             else if kind_eqb (bk node) KHash then ret (append d (text [35]), true)
             else ret (append d (convert_trivia (bt node)), false))
@@ -746,21 +747,23 @@ Section Conv.
       l <- lst_process l0 c nodes (opt_conv is_expr (fun c b => call b (RExpr c))) ;;
       ret (lst_doc l (mk_ls [] [123] [125] false true false false false false false false)).
 
-  Definition convert_parenthesized_impl (t : tree) (kids : list bundle) (c : ctx) : M doc :=
+  Definition convert_parenthesized_impl (t : tree) (kids : list bundle) (c : ctx) (emb : bool) : M doc :=
     let e := parenthesized_expr t in
-    let can_omit := (is_literal e || kin (kind_of e) CAN_OMIT_KINDS) && negb (existsb is_comment_b kids) in
+    (* a number or keyword directly after a hash in markup or math keeps its parentheses *)
+    let can_omit := ((is_literal e && negb (emb && negb (kind_eqb (kind_of e) KStr))) || kin (kind_of e) CAN_OMIT_KINDS)
+                    && negb (existsb is_comment_b kids) in
     l <- lst_process (lst_with_fold_style lst_new (get_fold_style c t)) c kids
            (opt_conv is_pattern (fun c b => call b (RPattern c))) ;;
     ret (lst_doc l (mk_ls [] [40] [41] false false false false false can_omit false false)).
 
-  Definition convert_parenthesized (t : tree) (kids : list bundle) (c : ctx) : M doc :=
+  Definition convert_parenthesized (t : tree) (kids : list bundle) (c : ctx) (emb : bool) : M doc :=
     let c := with_mode c LCodeCont in
     match find (fun b => is_pattern (bt b)) kids with
     | Some p =>
         if kind_eqb (bk p) KParenthesized && negb (existsb is_comment_b kids)
-        then call p (RParenthesized c)
-        else convert_parenthesized_impl t kids c
-    | None => convert_parenthesized_impl t kids c
+        then call p (RParenthesized c emb)
+        else convert_parenthesized_impl t kids c emb
+    | None => convert_parenthesized_impl t kids c emb
     end.
 
   Definition convert_array (t : tree) (kids : list bundle) (c : ctx) : M doc :=
@@ -1205,7 +1208,7 @@ Section Conv.
     | KAuto => ret (text [97; 117; 116; 111])
     | KCodeBlock => convert_code_block t kids c
     | KContentBlock => convert_content_block kids c
-    | KParenthesized => convert_parenthesized t kids c
+    | KParenthesized => convert_parenthesized t kids c false
     | KArray => convert_array t kids c
     | KDict => convert_dict t kids c
     | KUnary => convert_unary t kids c
@@ -1234,9 +1237,15 @@ Section Conv.
       match bk self with
       | KUnderscore => ret (text [95])
       | KDestructuring => convert_destructuring (bt self) (bkids self) c
-      | KParenthesized => convert_parenthesized (bt self) (bkids self) c
+      | KParenthesized => convert_parenthesized (bt self) (bkids self) c false
       | _ => convert_expr self c
       end).
+
+  (* convert_embedded_expr: the expression that is a child of Markup or Math *)
+  Definition convert_embedded_expr (self : bundle) (c : ctx) : M doc :=
+    if kind_eqb (bk self) KParenthesized then
+      bump ;;; check_disabled (bt self) (convert_parenthesized (bt self) (bkids self) c true)
+    else convert_expr self c.
 
   Definition step (t : tree) (kids : list bundle) (r : req) : M doc :=
     let self := Bundle t (fun _ => panic SBadRequest) kids in
@@ -1246,7 +1255,8 @@ Section Conv.
     | RMarkup c s => convert_markup_impl t kids c s
     | RMath c => convert_math t kids c
     | RContentBlock c => convert_content_block kids c
-    | RParenthesized c => convert_parenthesized t kids c
+    | RExprEmb c => convert_embedded_expr self c
+    | RParenthesized c emb => convert_parenthesized t kids c emb
     | RNamed c => convert_named kids c
     | RKeyed c => convert_keyed kids c
     | RSpread c => convert_spread kids c
